@@ -36,6 +36,10 @@ type c17Shared struct {
 	tokKeys []crypto.PublicKey
 	signers []keys.Pair
 	abstr   []*model.Claims
+	// fresh, never-yet-serialised extension objects with an absent (nil)
+	// pointer-embedded claim group: every goroutine's FIRST action of a round
+	// is to serialise one of them
+	groups []*extprof.ExtGroupClaims
 }
 
 type c17Event struct {
@@ -121,6 +125,18 @@ func buildC17Shared(g *model.Gen) (*c17Shared, error) {
 			s.evKeys = append(s.evKeys, k.Pub)
 		}
 	}
+	for i := 0; i < 4; i++ {
+		a := g.Valid(2)
+		a.Canon, a.Profile = extprof.ExtGroupName, model.SP(extprof.ExtGroupName)
+		x := extprof.NewExtGroupClaims()
+		if err := obs.SetterApply(x, a); err != nil {
+			return nil, fmt.Errorf("group extension %d: %w", i, err)
+		}
+		s.groups = append(s.groups, x.(*extprof.ExtGroupClaims))
+	}
+	// one of them is also an ordinary shared claims-set of the round
+	s.claims = append(s.claims, s.groups[0])
+	s.cnames = append(s.cnames, "claims:extension-with-pointer-embedded-group:setters")
 	// a shared decoded Evidence whose signature is the DER encoding of a real one
 	// (it does not verify; verifying it concurrently must neither race nor differ)
 	if env, perr := refcose.Parse(s.tokens[0]); perr == nil && len(env.Signature) == 64 {
@@ -397,7 +413,7 @@ func derefB(p *[]byte) []byte {
 }
 
 func runC17(c *mon.Ctx) {
-	c.Rule("worker built with the Go race detector (GORACE halt_on_error=0, reports collected and de-duplicated by the supervisor; any report with a library frame is a violation). Rounds: G in {16,32,64} goroutines x GOMAXPROCS in {2,4,16}; each goroutine runs a seeded random mix of (a) read-only operations on SHARED claims-sets (P1, P2, extension; built by setters, by direct assignment and by decoding; one invalid; two with 12 software components, in one of which four components are invalid in different ways - the digest of Validate and GetSoftwareComponents is the full error text) - Validate, all getters, component getters, CBOR/JSON encoding validating and not - and on SHARED Evidence (self-signed and decoded): Verify with right and wrong key, GetInstanceID, GetImplementationID, MarshalJSON; (b) operations on PRIVATE objects: NewClaims for every registered profile, setters, decode CBOR / JSON / COSE, validate, read, encode, SetClaims, ValidateAndSign, Verify, and extension-profile encode / decode through the embedding-aware codec including decodes that fail half-way (duplicate key, text key, truncated). Profiles are only ever registered while no goroutine is running: the extension before the first round and one fresh profile before EVERY round, and each round runs its concurrent pass first, so that anything initialised lazily on first use (after a registration) is initialised under concurrency. The same seeds are then run sequentially; every operation's result digest must be identical in the concurrent run (signatures: verifies + payload equality). Call/return times from one monotonic clock give the number of operation pairs that actually overlapped on the same shared object; a round without such overlaps is inconclusive. Monitor state is per goroutine and merged after Wait(). distinct_nontrivial = distinct (round configuration, operation kind, object) signatures")
+	c.Rule("worker built with the Go race detector (GORACE halt_on_error=0, reports collected and de-duplicated by the supervisor; any report with a library frame is a violation). Rounds: G in {16,32,64} goroutines x GOMAXPROCS in {2,4,16}; each goroutine runs a seeded random mix of (a) read-only operations on SHARED claims-sets (P1, P2, extension; built by setters, by direct assignment and by decoding; one invalid; an extension with a nil pointer-embedded claim group and pointer-receiver codecs - four fresh ones per round, serialised for the FIRST time by all goroutines at once, and still nil afterwards; two with 12 software components, in one of which four components are invalid in different ways - the digest of Validate and GetSoftwareComponents is the full error text) - Validate, all getters, component getters, CBOR/JSON encoding validating and not - and on SHARED Evidence (self-signed and decoded): Verify with right and wrong key, GetInstanceID, GetImplementationID, MarshalJSON; (b) operations on PRIVATE objects: NewClaims for every registered profile, setters, decode CBOR / JSON / COSE, validate, read, encode, SetClaims, ValidateAndSign, Verify, and extension-profile encode / decode through the embedding-aware codec including decodes that fail half-way (duplicate key, text key, truncated). Profiles are only ever registered while no goroutine is running: the extension before the first round and one fresh profile before EVERY round, and each round runs its concurrent pass first, so that anything initialised lazily on first use (after a registration) is initialised under concurrency. The same seeds are then run sequentially; every operation's result digest must be identical in the concurrent run (signatures: verifies + payload equality). Call/return times from one monotonic clock give the number of operation pairs that actually overlapped on the same shared object; a round without such overlaps is inconclusive. Monitor state is per goroutine and merged after Wait(). distinct_nontrivial = distinct (round configuration, operation kind, object) signatures")
 	if err := extprof.Register(extprof.ExtP2Name); err != nil {
 		c.Violation("harness/register", err.Error(), nil)
 		return
@@ -453,6 +469,12 @@ func runC17(c *mon.Ctx) {
 					r := rand.New(rand.NewSource(seedBase + int64(gid)*7919))
 					evs := make([]c17Event, 0, per)
 					<-gate
+					// first use of a freshly built object, by all goroutines at once
+					if fresh := s.groups[gid%len(s.groups)]; gid%2 == 0 {
+						_, _ = psatoken.EncodeClaimsToJSON(fresh)
+					} else {
+						_, _ = fresh.MarshalCBOR()
+					}
 					for i := 0; i < per; i++ {
 						evs = append(evs, c17Op(s, r, gid, clock))
 						if i%64 == 63 {
@@ -465,6 +487,12 @@ func runC17(c *mon.Ctx) {
 			close(gate)
 			wg.Wait()
 			runtime.GOMAXPROCS(prev)
+			for gi, fresh := range s.groups {
+				c.Count("fresh-objects-first-serialised-concurrently")
+				if fresh.VendorGroup != nil {
+					c.Violation("C17/shared-object-changed-by-reading/extension-with-pointer-embedded-group", "a shared claims-set was only read / serialised during the round, yet its absent (nil) embedded claim group is now allocated", map[string]any{"object": gi})
+				}
+			}
 			// sequential reference (same seeds)
 			seq := make([][]c17Event, rc.G)
 			for gid := 0; gid < rc.G; gid++ {
